@@ -19,7 +19,7 @@ ASSUME = ["the simrex kernel, seams and probe nodes are correct (DESIGN 2, 10)",
 
 PROPS = {
     "C01": dict(mod="checks.c01", quick_runs=32, thorough_s=1500, opts=dict(pairs=1, max_nodes=4, max_steps=8), thorough_opts=dict(pairs=2, max_nodes=5, max_steps=12)),
-    "C02": dict(mod="checks.c02", quick_runs=64, thorough_s=1500, opts=dict(variants=6), thorough_opts=dict(variants=16)),
+    "C02": dict(mod="checks.c02", quick_runs=64, thorough_s=1500, opts=dict(variants=6), thorough_opts=dict(variants=12)),
     "C03": dict(mod="checks.c03", quick_runs=96, thorough_s=1500, opts=dict(episodes=4, wall_p=0.12), thorough_opts=dict(episodes=6, wall_p=0.15)),
     "C04": dict(mod="checks.c04", quick_runs=96, thorough_s=1500, opts=dict(episodes=3), thorough_opts=dict(episodes=5)),
     "C05": dict(mod="checks.c05", quick_runs=112, thorough_s=1500, opts=dict(wall_p=0.1), thorough_opts=dict(wall_p=0.15)),
